@@ -266,9 +266,9 @@ class CircRNAVariantPeptideIdentifier(VariantPeptideIdentifier):
     def __str__(self) -> str:
         """ str """
         x = [self.circ_rna_id]
+        x += self.variant_ids
         if self.orf_id:
             x.append(self.orf_id)
-        x += self.variant_ids
         if self.index:
             x.append(str(self.index))
         return '|'.join(x)
@@ -288,11 +288,11 @@ class FusionVariantPeptideIdentifier(VariantPeptideIdentifier):
     def __str__(self) -> str:
         """ str """
         x = [self.fusion_id]
-        if self.orf_id:
-            x.append(self.orf_id)
         x += [f"1-{it}" for it in self.first_variants]
         x += [f"2-{it}" for it in self.second_variants]
         x += self.peptide_variants
+        if self.orf_id:
+            x.append(self.orf_id)
         if self.index:
             x.append(str(self.index))
         return '|'.join(x)
